@@ -277,8 +277,8 @@ def c10():
         obs.append(ob("c10c::compact_block_body_roundtrip", tiers, 8, "CompactBlockBody decodes from its own encoding to an equal value at every protocol version: counts written and read in the same order, every list read with its own count",
                       "%d full outputs (empty range proofs) / %d full kernels / %d short ids, contents symbolic, versions {1,2,3,1000}" % (no, nk, ni),
                       env={"VH_NOUT": no, "VH_NK": nk, "VH_NIDS": ni}, tag="_%d_%d_%d" % (no, nk, ni), est=200, loops={"memcmp": 120, "memcpy": 700, "memset": 700, "read_empty_bytes": 18, "copy_from_slice": 700, "extend_desugared": 3, "IteratingReader": 3}, unwindset={}))
-    for no, nk, ni, tiers in [(0, 1, 0, "qt"), (1, 0, 0, "qt"), (1, 1, 0, "t"), (0, 1, 1, "t"), (1, 1, 1, "t")]:
-        obs.append(ob("c10c::compact_block_body_read_counts", tiers, 10, "CompactBlockBody::read (reader side only): a buffer announcing these counts followed by arbitrary content of the matching length, whenever accepted, yields lists of exactly the announced lengths - every list is read with its own count, in the written order - and at v1 consumes exactly the buffer",
+    for no, nk, ni, tiers in [(0, 1, 0, "x"), (1, 0, 0, "x"), (1, 1, 0, "x")]:
+        obs.append(ob("c10c::compact_block_body_read_counts", tiers, 10, "[ATTEMPT: 660 s / 12 GB not enough] CompactBlockBody::read (reader side only): a buffer announcing these counts followed by arbitrary content of the matching length, whenever accepted, yields lists of exactly the announced lengths - every list is read with its own count, in the written order - and at v1 consumes exactly the buffer",
                       "%d full outputs (empty range proofs) / %d full kernels / %d short ids announced, all content bytes symbolic, versions {1,2,3,1000}" % (no, nk, ni),
                       env={"VH_NOUT": no, "VH_NK": nk, "VH_NIDS": ni}, tag="_%d_%d_%d" % (no, nk, ni), est=200, loops={"memcmp": 120, "memcpy": 700, "memset": 700, "read_empty_bytes": 18, "copy_from_slice": 700, "extend_desugared": 3, "IteratingReader": 3, "compact_block_body_read_counts": 26}, unwindset={}))
     for h, L, what in [
@@ -288,6 +288,8 @@ def c10():
         ("segment_identifier_canonical", 9, "SegmentIdentifier"), ("tip_canonical", 80, "chain Tip"), ("commit_pos_canonical", 16, "chain CommitPos"),
         ("header_version_canonical", 2, "HeaderVersion"), ("output_identifier_canonical", 34, "OutputIdentifier"),
         ("txkernel_canonical", 114, "TxKernel (all variants, v1 and v2+ layouts)"), ("difficulty_canonical", 8, "Difficulty"),
+        ("block_sums_canonical", 66, "BlockSums (the running sums stored per block)"), ("short_id_canonical", 6, "ShortId"),
+        ("nrd_list_wrapper_canonical", 17, "chain ListWrapper<CommitPos> (NRD kernel index: unknown tag refused)"), ("nrd_list_entry_canonical", 33, "chain ListEntry<CommitPos> (NRD kernel index: unknown tag refused)"),
     ]:
         obs.append(ob("c10b::" + h, "qt", 20, "%s: any accepted byte string re-encodes to exactly the bytes consumed (reader and writer agree on field order and widths; nothing normalised)" % what,
                       "all %d-byte strings x protocol versions {1,2,3,1000}" % L, est=60, loops={"memcmp": 120, "memcpy": 120, "read_empty_bytes": 18}))
@@ -313,7 +315,7 @@ def c12():
         ob("c12::cut_through_err_iff_duplicate_2_2", "qt", 6, "Err(CutThrough) iff a duplicate survives", "2 + 2", est=500, cap_s=750, unwindset={"memcmp.0": 40}, mem_est_gb=13),
         ob("c12::aggregate_two_independent", "x", 6, "[ATTEMPT: did not finish in 3600 s] aggregate([a, b]) of two transactions that do not spend each other: kernels = union, inputs = union, offset = sum of offsets (model scalar group), independent of operand order",
            "two 1-input / 0-output / 1-kernel transactions with symbolic commitments, excesses, fees and offsets", est=900, cap_s=3600, loops={"memcmp": 70, "zeroize": 36, "memcpy": 120}, replay="model", mem_est_gb=14),
-        ob("c12::deaggregate_known_subset_kernel_only", "x", 3, "[ATTEMPT: symbolic execution did not finish in 660 s at unwind 3 or 6] deaggregate(mk, [t]) for kernel-only transactions: the remainder holds exactly the kernel that is not t's, nothing else, and its offset is mk's offset minus t's in the (model) scalar group - also when either offset is zero",
+        ob("c12::deaggregate_known_subset_kernel_only", "x", 3, "[ATTEMPT: symbolic execution did not finish in 660 s at unwind 3 or 6; with a 2 h cap it exceeded 40 GB after 26 min] deaggregate(mk, [t]) for kernel-only transactions: the remainder holds exactly the kernel that is not t's, nothing else, and its offset is mk's offset minus t's in the (model) scalar group - also when either offset is zero",
            "mk with 2 kernels in either order, t with one of them; symbolic excesses, both offsets any model scalar", est=600, cap_s=5400, loops={"memcmp": 70, "zeroize": 36, "memcpy": 120, "insertion_sort": 4}, replay="model", mem_est_gb=12),
         ob("c12::cut_through_3_3", "t", 8, "same", "3 inputs + 3 outputs", est=3000, cap_s=5400, unwindset={"memcmp.0": 40}, mem_est_gb=20),
     ]
@@ -396,7 +398,7 @@ def c14():
     obs = [
         ob("c14::tx_fee_gate_inputs", "qt", 6, "Transaction::{weight, fee, shifted_fee, accept_fee} - the quantities TransactionPool::is_acceptable compares - follow their definitions",
            "1-in/0-out/1-kernel tx, fee < 2^40, shift < 16, base < 2^40", est=60, loops={"memcmp": 70, "zeroize": 36}),
-        ob("c14::add_to_pool_gate_sequencing", "x", 3, "[ATTEMPT: symbolic execution did not finish in 660 s at unwind 3 or 6] TransactionPool::add_to_pool (empty pools, one transaction; chain, adapter and standalone validation answer arbitrarily): admitted ONLY IF the shifted fee reaches weight * accept_fee_base, standalone validation as a transaction (weight limit included) ran and accepted, lock height / coinbase maturity / utxo checks were made against the chain and passed, the pool aggregate validated, and an NRD kernel is enabled and past header version 4; stem goes to the stempool only unless the adapter refuses; a refusal leaves the public pool empty and announces nothing; below the fee floor the refusal is LowFeeTransaction before any validation",
+        ob("c14::add_to_pool_gate_sequencing", "x", 3, "[ATTEMPT: symbolic execution did not finish in 660 s at unwind 3 or 6; with a 2 h cap it exceeded 40 GB after 36 min] TransactionPool::add_to_pool (empty pools, one transaction; chain, adapter and standalone validation answer arbitrarily): admitted ONLY IF the shifted fee reaches weight * accept_fee_base, standalone validation as a transaction (weight limit included) ran and accepted, lock height / coinbase maturity / utxo checks were made against the chain and passed, the pool aggregate validated, and an NRD kernel is enabled and past header version 4; stem goes to the stempool only unless the adapter refuses; a refusal leaves the public pool empty and announces nothing; below the fee floor the refusal is LowFeeTransaction before any validation",
            "1-in/0-out/1-kernel tx (plain / height-locked / NRD), fee < 2^40, shift < 16, base < 2^40, stem or fluff, every header version, NRD flag, symbolic verdicts of the chain, the adapter and Transaction::validate (tagging stub; the validation itself is C01)", est=400,
            loops={"memcmp": 70, "zeroize": 36, "memcpy": 120}, replay="model", mem_est_gb=12),
         ob("c14::pool_refuses_low_fee", "t", 6, "TransactionPool::add_to_pool refuses (LowFeeTransaction) every tx whose shifted fee is below weight*accept_fee_base; weight / shifted_fee / accept_fee formulas",
@@ -422,18 +424,17 @@ def c19():
            "all 2^88 frame headers x 4 chain types", est=60),
         ob("c19::frame_header_writer_matches_reader", "qt", 6, "every frame header the reader accepts is reproduced byte for byte by MsgHeader::write, and MsgHeader::new stamps the same magic",
            "all 2^88 frame headers x 4 chain types", est=60),
-        ob("c19::message_sequence_under_fragmentation", "qt", 8, "a Ping, a frame of an unknown type and a Pong written by the real writer (Msg::new + write_message) are read back by read_message over a fragmenting reader as the identical typed messages; the unknown frame is a bad message whose announced body is skipped (stream stays in step); exactly the written bytes are consumed",
-           "all field values, every unknown type byte, 3 junk bytes, Mainnet, protocol version 1; every fragmentation in which at most 2 reads come back short (which reads and how short: symbolic)", est=300, env={"VH_FRAG": 2}, tag="_f2",
-           loops={"Frag": 18, "read_exact": 6, "default_read_exact": 6, "memcpy": 40, "memcmp": 40, "extend": 40, "write_all": 4}, mem_est_gb=8),
-        ob("c19::message_sequence_under_fragmentation", "t", 8, "same, every read may come back short (fully arbitrary fragmentation)",
-           "all field values, every unknown type byte, 3 junk bytes, Mainnet, protocol version 1; EVERY fragmentation", est=2000, cap_s=3600, env={"VH_FRAG": 0}, tag="_fall",
-           loops={"Frag": 18, "read_exact": 18, "default_read_exact": 18, "memcpy": 40, "memcmp": 40, "extend": 40, "write_all": 4}, mem_est_gb=12),
-        ob("c19::read_message_type_mismatch_keeps_stream", "qt", 12, "read_message::<Ping> on a frame with the wrong magic, of another known type, or announcing an empty body: refused after consuming exactly the 11 header bytes",
-           "every magic and type byte, announced length 0, 11 arbitrary following bytes, all chain types; every fragmentation in which at most 2 reads come back short", est=120, env={"VH_FRAG": 2}, loops={"Frag": 13, "read_exact": 5, "default_read_exact": 5, "memcpy": 40, "memcmp": 40}),
-        ob("c19::codec_ping_then_unknown_then_pong", "x", 10, "[ATTEMPT] the streaming Codec (reader of every established connection) decodes a Ping frame, a frame of unknown type and a Pong frame arriving in arbitrary fragments as Ping, Unknown(type), Pong with the written values, consuming exactly the stream",
-           "all field values, every unknown type byte, 2 junk bytes, Mainnet, every fragmentation of the 67-byte stream; socket replaced by a fragmenting byte source (E8)", est=1500, cap_s=3600,
-           loops={"sock": 18, "read_exact": 18, "default_read_exact": 18, "memcpy": 40, "memcmp": 40, "read_inner": 20, "put": 20}, mem_est_gb=16, replay="model"),
-        ob("c19::read_message_wrong_type_refused", "t", 14, "read_message::<Ping> over an 11-byte stream: wrong magic refused, other type => error, never a panic or body allocation beyond the bound",
+        ob("c19::writer_frames_messages", "x", 46, "[ATTEMPT: exceeds 8 GB within 80 s and keeps growing; cause not isolated (suspected: the rate counter's truncate loop / Vec::remove under a non-constant clock value)] the sending side: two messages written one after the other through Msg::new + write_message (one connection tracker) form exactly two frames: network magic, type byte, body length as big-endian u64 (what the reader's header parser accepts), body bytes in field order; nothing before, between or after them; no allocation above 4 KiB",
+           "a Ping with every difficulty / height followed by a BanReason, all chain types, protocol version 1", est=120, loops={"memcpy": 60, "memcmp": 40, "extend": 40, "write_all": 4}, mem_est_gb=6),
+        ob("c19::message_sequence_under_fragmentation", "x", 8, "[ATTEMPT: does not finish, same reason as read_message_type_mismatch_keeps_stream] a Ping, a frame of an unknown type and a Pong written by the real writer (Msg::new + write_message) are read back by read_message over a fragmenting reader as the identical typed messages; the unknown frame is a bad message whose announced body is skipped (stream stays in step); exactly the written bytes are consumed; no allocation above 4 KiB",
+           "all field values, unknown type byte 200, 3 junk bytes, Mainnet, protocol version 1; fragmentation: EVERY single packet boundary (each of the 67 offsets, enumerated in the harness), no boundary, and byte-by-byte delivery (cut points are concrete: symbolic cut points make buffer indices symbolic and the query does not finish)", est=300,
+           loops={"Frag": 18, "read_exact": 18, "default_read_exact": 18, "memcpy": 40, "memcmp": 40, "extend": 40, "write_all": 4, "message_sequence_under_fragmentation": 72}, mem_est_gb=8, env={"VH_UNKTYPE": 200}, tag="_t200"),
+        ob("c19::read_message_type_mismatch_keeps_stream", "x", 12, "[ATTEMPT: does not finish - the announced length is parsed out of a memcpy'd buffer, CBMC does not fold it to a constant, and the body buffer becomes a symbolic-length object] read_message::<Ping> on a frame with the wrong magic, of another known type, of an unknown type, or a Ping announcing an empty body: refused after consuming exactly the 11 header bytes",
+           "every magic and type byte, announced length 0, 11 arbitrary following bytes, all chain types; delivered unfragmented, with a packet boundary inside the header, and byte-by-byte", est=120, loops={"Frag": 13, "read_exact": 13, "default_read_exact": 13, "memcpy": 40, "memcmp": 40, "read_message_type_mismatch_keeps_stream": 9}),
+        ob("c19::codec_ping_then_unknown_then_pong", "x", 10, "[ATTEMPT] the streaming Codec (reader of every established connection) decodes a Ping frame, a frame of unknown type and a Pong frame arriving in fragments as Ping, Unknown(type), Pong with the written values, consuming exactly the stream",
+           "all field values, every unknown type byte, 2 junk bytes, Mainnet; packet boundary at offsets 1, 5, 11, 20, 30, 39, 45, none, and byte-by-byte; socket replaced by a fragmenting byte source (E8)", est=1500, cap_s=3600,
+           loops={"sock": 18, "read_exact": 18, "default_read_exact": 18, "memcpy": 40, "memcmp": 40, "read_inner": 20, "put": 20, "codec_ping_then_unknown_then_pong": 11}, mem_est_gb=16, replay="model"),
+        ob("c19::read_message_wrong_type_refused", "x", 14, "[ATTEMPT: did not finish in 300 s; the announced length is symbolic and the body buffer becomes a symbolic-size object] read_message::<Ping> over an 11-byte stream: wrong magic refused, other type => error, never a panic or body allocation beyond the bound",
            "all 11-byte streams, Mainnet", est=120),
     ]
     return {
@@ -561,7 +562,7 @@ def c20():
            "every amount, depth-3 path with any child numbers, any two different model wallets, any single corrupted message byte", est=200, loops=L, replay="model", allow_unsat=["depth 4", "depth 0"]),
         ob("c20::blinding_factor_split", "qt", 5, "BlindingFactor::split over the scalar group (E7 model under Kani, real libsecp256k1 in the native replay): the second part is whole - first part",
            "every pair of distinct non-zero model scalars", est=300, loops={"zeroize": 36, "memcmp": 70}),
-        ob("c20::blinding_factor_add", "qt", 5, "BlindingFactor::add: a + b == b + a == the group sum; zero is the identity",
+        ob("c20::blinding_factor_add", "x", 5, "[ATTEMPT: symbolic execution of the filter / filter_map / collect chain does not finish in 660 s] BlindingFactor::add: a + b == b + a == the group sum; zero is the identity",
            "every pair of model scalars whose sum is not zero (the real library refuses a zero sum)", est=300, loops={"zeroize": 36, "memcmp": 70}),
     ]
     return {
